@@ -33,7 +33,7 @@ class PyCore:
     def _init_resource_observer(self):
         callback = self._invalidate_resource_cache
         observer = rope.base.resourceobserver.ResourceObserver(
-            changed=callback, moved=callback, removed=callback
+            changed=callback, moved=callback, removed=callback, created=callback
         )
         self.observer = rope.base.resourceobserver.FilteredResourceObserver(observer)
         self.project.add_observer(self.observer)
